@@ -180,6 +180,69 @@ fn underdeclared_block_accepted() -> Option<String> {
     if bad.is_empty() { None } else { Some(bad.join("; ")) }
 }
 
+/// C10: an iteration budget of 0 must not let evaluation run on
+fn iterations_zero_budget() -> Option<String> {
+    use std::time::Duration;
+    let root = KeyPair::new();
+    let t = Biscuit::builder()
+        .fact("e(1, 2)").unwrap().fact("e(2, 3)").unwrap().fact("e(3, 4)").unwrap().fact("e(4, 5)").unwrap().fact("e(5, 6)").unwrap()
+        .rule("p($a, $b) <- e($a, $b)").unwrap()
+        .rule("p($a, $c) <- p($a, $b), e($b, $c)").unwrap()
+        .build(&root).unwrap();
+    for budget in [0u64, 1, 2] {
+        let mut a = AuthorizerBuilder::new()
+            .limits(AuthorizerLimits { max_facts: 1000, max_iterations: budget, max_time: Duration::from_secs(5) })
+            .policy("allow if true").unwrap()
+            .build(&t).unwrap();
+        match quiet(|| a.authorize().is_ok()) {
+            Err(p) => return Some(format!("max_iterations={}: authorize() panics after {} iterations: {}", budget, a.iterations(), p)),
+            Ok(ok) => if ok && a.iterations() > budget {
+                return Some(format!("max_iterations={} but authorize() succeeded after {} iterations", budget, a.iterations()));
+            }
+        }
+    }
+    None
+}
+
+/// C10: on success the authorizer never reports more facts than its budget
+fn facts_over_budget_at_start() -> Option<String> {
+    use std::time::Duration;
+    let root = KeyPair::new();
+    let t = Biscuit::builder()
+        .fact("f(1)").unwrap().fact("f(2)").unwrap().fact("f(3)").unwrap().fact("f(4)").unwrap().fact("f(5)").unwrap()
+        .build(&root).unwrap();
+    let mut a = AuthorizerBuilder::new()
+        .limits(AuthorizerLimits { max_facts: 2, max_iterations: 100, max_time: Duration::from_secs(5) })
+        .policy("allow if true").unwrap()
+        .build(&t).unwrap();
+    let r = a.authorize();
+    if r.is_ok() && a.fact_count() > 2 {
+        return Some(format!("max_facts=2 but authorize() succeeded with fact_count()={}", a.fact_count()));
+    }
+    None
+}
+
+/// C09/C10: an authorizer restored from a snapshot whose iteration counter exceeds its budget
+fn snapshot_iteration_underflow() -> Option<String> {
+    use prost::Message;
+    use biscuit_auth::format::schema;
+    let root = KeyPair::new();
+    let t = Biscuit::builder().fact("f(1)").unwrap().build(&root).unwrap();
+    let mut a = AuthorizerBuilder::new().policy("allow if true").unwrap().build(&t).unwrap();
+    a.authorize().unwrap();
+    let raw = a.to_raw_snapshot().unwrap();
+    let mut snap = schema::AuthorizerSnapshot::decode(&raw[..]).unwrap();
+    snap.world.iterations = snap.limits.max_iterations + 1;
+    snap.execution_time = 1;
+    let mut out = Vec::new();
+    snap.encode(&mut out).unwrap();
+    let mut restored = match Authorizer::from_raw_snapshot(&out) { Ok(r) => r, Err(_) => return None };
+    match quiet(|| restored.authorize().map(|_| ())) {
+        Err(p) => Some(format!("Authorizer::from_raw_snapshot(iterations = max_iterations + 1).authorize() panics: {}", p)),
+        Ok(_) => None,
+    }
+}
+
 fn main() {
     let case = std::env::args().nth(1).unwrap_or_default();
     let w = match case.as_str() {
@@ -188,6 +251,9 @@ fn main() {
         "unverified_third_party_tables" => unverified_third_party_tables(),
         "schema_version_features" => schema_version_features(),
         "underdeclared_block_accepted" => underdeclared_block_accepted(),
+        "iterations_zero_budget" => iterations_zero_budget(),
+        "snapshot_iteration_underflow" => snapshot_iteration_underflow(),
+        "facts_over_budget_at_start" => facts_over_budget_at_start(),
         _ => { eprintln!("unknown case {}", case); std::process::exit(2) }
     };
     match w {
